@@ -181,4 +181,30 @@ theorem populateWith_selector (ea : List (Str × Str)) (dm : Str) (pi : PopInfo)
       · simp only []
         split <;> (try split) <;> simp [handleEaExt_selector]
 
+theorem handleEaExt_size (ea : List (Str × Str)) (read : Str → Option (List Str)) : ∀ (x : Entry),
+    (handleEaExt ea read x).size = x.size := by
+  unfold handleEaExt
+  induction ea with
+  | nil => intro x; rfl
+  | cons kv r ih =>
+    intro x
+    simp only [List.foldl_cons]
+    rw [ih]
+    obtain ⟨ext, blk⟩ := kv
+    simp only
+    split
+    · rfl
+    · split <;> rfl
+
+/-- a fresh entry populated from a regular file carries the file's size -/
+theorem populateWith_file_size (ea : List (Str × Str)) (dm : Str) (pi : PopInfo) (e : Entry)
+    (hp : e.populated = false) (hh : e.host = none) (hpo : e.port = none) (hs : e.size = none)
+    (hk : pi.stat.kind ≠ .dir) : (populateWith ea dm pi e).size = some pi.stat.size := by
+  unfold populateWith populate
+  simp only [hp, Bool.false_eq_true, if_false, hh, hpo, Option.isNone_none, Bool.and_self, Bool.not_true]
+  have hk' : (pi.stat.kind == Kind.dir) = false := by
+    cases h : pi.stat.kind <;> simp_all
+  simp only [hk', Bool.false_eq_true, if_false]
+  split <;> (try split) <;> simp [handleEaExt_size, hs, orNat]
+
 end Pyg
